@@ -22,6 +22,30 @@ use core::ops::{AddAssign, BitOrAssign, ShlAssign};
 
 type ConstType = I9F23;
 
+// Loop-iteration counter for verification, compiled only under
+// `--cfg substrate_fixed_verif` (the crate stays `no_std` otherwise).
+#[cfg(substrate_fixed_verif)]
+extern crate std;
+#[cfg(substrate_fixed_verif)]
+std::thread_local! {
+    static VERIF_LOOP_ITERS: core::cell::Cell<u64> = core::cell::Cell::new(0);
+}
+/// Resets the verification loop-iteration counter of the current thread.
+#[cfg(substrate_fixed_verif)]
+pub fn verif_reset_iters() {
+    VERIF_LOOP_ITERS.with(|c| c.set(0));
+}
+/// Reads the verification loop-iteration counter of the current thread.
+#[cfg(substrate_fixed_verif)]
+pub fn verif_read_iters() -> u64 {
+    VERIF_LOOP_ITERS.with(|c| c.get())
+}
+#[cfg(substrate_fixed_verif)]
+#[inline]
+fn verif_tick() {
+    VERIF_LOOP_ITERS.with(|c| c.set(c.get() + 1));
+}
+
 /// zero
 pub const ZERO: I9F23 = I9F23::from_bits(0i32 << 23);
 /// one
@@ -154,6 +178,8 @@ where
     // Newton iterations
     let mut l = (operand / D::from_num(2)) + D::from_num(1);
     for _i in 0..D::frac_nbits() {
+        #[cfg(substrate_fixed_verif)]
+        verif_tick();
         l = (l + operand / l) / D::from_num(2);
     }
     if invert {
@@ -178,6 +204,8 @@ where
     let lsb = (D::from_num(1) >> D::frac_nbits()).to_bits();
 
     while x >= TWO {
+        #[cfg(substrate_fixed_verif)]
+        verif_tick();
         result += lsb;
         x = rs(x);
     }
@@ -187,6 +215,8 @@ where
     };
 
     for _i in (0..D::frac_nbits()).rev() {
+        #[cfg(substrate_fixed_verif)]
+        verif_tick();
         x *= x;
         result <<= lsb;
         if x >= TWO {
@@ -248,6 +278,8 @@ where
     let mut term = operand;
 
     for i in 2..D::frac_nbits() {
+        #[cfg(substrate_fixed_verif)]
+        verif_tick();
         term = if let Some(r) = term.checked_mul(operand) {
             r
         } else {
@@ -336,6 +368,8 @@ where
     let mut r = operand;
 
     for _i in 1..exponent.abs() {
+        #[cfg(substrate_fixed_verif)]
+        verif_tick();
         r = if let Some(r) = r.checked_mul(operand) {
             r
         } else {
@@ -365,6 +399,8 @@ where
         if i >= 24 {
             break;
         }
+        #[cfg(substrate_fixed_verif)]
+        verif_tick();
         let prev_x = x;
         if z < ZERO {
             x += y >> i;
@@ -390,9 +426,13 @@ where
 {
     //wraparound
     while angle > PI {
+        #[cfg(substrate_fixed_verif)]
+        verif_tick();
         angle -= T::lossy_from(TWO_PI);
     }
     while angle < -PI {
+        #[cfg(substrate_fixed_verif)]
+        verif_tick();
         angle += T::lossy_from(TWO_PI);
     }
     //mirror
